@@ -434,7 +434,8 @@ def unit_resize_discr(bl, br, off_kind, grow):
             off = None
             if off_kind == 'given':
                 off = S(z3.Int('off'))
-                st.assume(off >= 0) if grow else st.assume(off <= 0)
+                st.assume(off >= 0)          # entries added to (grow) / removed from (shrink) the left
+                st.assume(off <= (m - n if grow else n - m))
             calls = []
 
             class Grid(object):
@@ -497,11 +498,135 @@ def unit_resize_discr(bl, br, off_kind, grow):
             denom = m - (0.5 if bl else 0.0) - (0.5 if br else 0.0)
             ctx.prove(st, 'cell size is preserved  (max_pt - min_pt) == h * (m - (bl + br)/2)', core.sc_eq(mx - mn, h * denom), info)
             n_diff = m - n
-            num_l = r['off'] if r['off'] is not None else n_diff - n_diff // 2
+            num_l = (r['off'] if grow else -r['off']) if r['off'] is not None else n_diff - n_diff // 2      # cells added on the left (negative: removed)
             first = mn + (0.0 if bl else 0.5) * h
             ctx.prove(st, 'grid points are the old ones shifted by whole cells  (first new node == g0 - num_left * h)', core.sc_eq(first, g0 - num_l * h), info)
     return Unit('resize_discr/bdry=%s%s/offset=%s/%s' % (int(bl), int(br), off_kind, 'grow' if grow else 'shrink'), run, funcs=['odl.discr.discr_ops:_resize_discr'],
                 config={'nodes_on_bdry': [bl, br], 'offset': off_kind, 'grow': grow})
+
+
+def unit_resizing_init(bl, br, off_kind, grow, hval=0.5):
+    """ResizingOperator.__init__ with `ran_shp` (1 axis, symbolic sizes): the offset it stores - the one _call hands to resize_array, i.e. the
+    number of entries added to / removed from the left - agrees with where _resize_discr has put the range grid: the first range node lies
+    `offset` cells to the left (grow) resp. right (shrink) of the first domain node; uniform_partition is taken by its contract (C14)"""
+    DOPS = 'odl.discr.discr_ops:'
+
+    def run(ctx):
+        I = ctx.I
+        import numpy as np
+        from pyvc.objnp import ONd
+        from contracts import oplib
+
+        def path(st):
+            st.object_arrays = True
+            st.cuts.update(utilcuts.cuts())
+            st.cuts.update(oplib.operator_cuts())
+            fr = ip.Frame(st)
+            n, m = S(z3.Int('n')), S(z3.Int('m'))
+            st.assume(n >= 2)
+            st.assume(m >= 2)
+            st.assume(m > n if grow else m < n)
+            g0, h = S(z3.Real('g0')), hval          # the cell size is a configuration (keeps the arithmetic linear); sizes, offset and position are symbolic
+            off = None
+            if off_kind == 'given':
+                off = S(z3.Int('off'))
+                st.assume(off >= 0)
+                st.assume(off <= (m - n if grow else n - m))
+
+            class Axis(object):
+                def __init__(self, grid_min, cell, shape):
+                    self.grid_min, self.cell, self.shape = grid_min, cell, shape
+
+            class Grid(object):
+                def __init__(self, axes):
+                    self.axes = axes
+
+                def pv_getattr(self, I_, fr_, name):
+                    if name == 'min':
+                        return ip.Builtin('min', lambda *a: ONd(np.array([a_.grid_min for a_ in self.axes], dtype=object)))
+                    if name == 'max':
+                        return ip.Builtin('max', lambda *a: ONd(np.array([a_.grid_min + (a_.shape - 1) * a_.cell for a_ in self.axes], dtype=object)))
+                    raise Unsupported('grid.%s' % name)
+
+            class Part(object):
+                def __init__(self, axes=()):
+                    self.axes = list(axes)
+
+                def pv_getattr(self, I_, fr_, name):
+                    if name == 'append':
+                        return ip.Builtin('append', lambda I2, fr2, a, k: Part(self.axes + (a[0].axes if isinstance(a[0], Part) else [a[0]])))
+                    d = {'grid': Grid(self.axes), 'shape': tuple(a_.shape for a_ in self.axes), 'ndim': len(self.axes),
+                         'cell_sides': ONd(np.array([a_.cell for a_ in self.axes], dtype=object)), 'is_uniform_byaxis': tuple(True for _ in self.axes),
+                         'is_uniform': True}
+                    if name in d:
+                        return d[name]
+                    raise Unsupported('partition.%s' % name)
+
+            class TSp(object):
+                def pv_getattr(self, I_, fr_, name):
+                    d = {'dtype': npm.DT('float64'), 'impl': 'numpy', 'exponent': 2.0, 'weighting': None}
+                    if name in d:
+                        return d[name]
+                    raise Unsupported('tspace.%s' % name)
+
+            def upart(I_, fr_, min_pt=None, max_pt=None, shape=None, cell_sides=None, nodes_on_bdry=False, **kw):
+                if isinstance(shape, tuple) and shape == ():
+                    return Part()
+                nb = nodes_on_bdry if isinstance(nodes_on_bdry, (tuple, list)) else (nodes_on_bdry, nodes_on_bdry)
+                mn, mx, sh = core.S.lift(min_pt), core.S.lift(max_pt), core.S.lift(shape)
+                denom = sh - (0.5 if nb[0] else 0.0) - (0.5 if nb[1] else 0.0)
+                # contract of uniform_partition (proved in C14): cell = (max - min) / denom.  If the path condition already implies that this is the
+                # domain's cell size h (a linear fact for concrete h), the quotient is replaced by h - a proved equality, not an assumption
+                from pyvc import vc
+                if vc.prove(list(st.pc), core.side_conditions(), core.sc_eq(mx - mn, h * denom), quick=True).status == 'proved':
+                    cell = core.S.lift(h)
+                else:
+                    cell = (mx - mn) / denom
+                return Axis(mn + (0.0 if nb[0] else 0.5) * cell, cell, shape)
+            for k_ in (DOPS + 'uniform_partition', 'odl.discr.partition:uniform_partition'):
+                st.cuts[k_] = upart
+            for k_ in (DOPS + 'tensor_space', 'odl.space.space_utils:tensor_space'):
+                st.cuts[k_] = lambda I_, fr_, *a, **k: TSp()
+
+            def dctor(I_, fr_, self, part, tspace, **k):
+                self.fields.update({'_DiscretizedSpace__partition': part, '_DiscretizedSpace__tspace': tspace, '_TensorSpace__shape': part.pv_getattr(I_, fr_, 'shape'),
+                                    '_TensorSpace__dtype': npm.DT('float64')})
+                self.partial = True
+            st.cuts['odl.discr.discr_space:DiscretizedSpace.__init__'] = dctor
+            dom = ip.Obj(I.get_class('odl.discr.discr_space:DiscretizedSpace'))
+            dctor(I, fr, dom, Part([Axis(g0, h, n)]), TSp())
+            try:
+                op = I.call(I.get_class(DOPS + 'ResizingOperator'), [dom], {'ran_shp': (m,), 'offset': None if off is None else (off,),
+                                                                            'discr_kwargs': {'nodes_on_bdry': [(bl, br)]}}, fr)
+                offset = I._getattr(op, 'offset', fr)
+                ran = I._getattr(op, 'range', fr)
+            except ip.PyRaise as e:
+                return ('raise', e.exc)
+            return ('ok', dict(offset=offset, ran=ran, n=n, m=m, g0=g0, h=h, off=off))
+        info = {'nodes_on_bdry': (bl, br), 'offset': off_kind, 'grow': grow}
+        n_ok = 0
+        for st, (status, r) in ctx.explore(path):
+            if status == 'raise':
+                ctx.fail(st, 'no_raise', 'raises %s' % lib.exc_desc(r), info)
+                continue
+            n_ok += 1
+            offv = r['offset']
+            offv = offv[0] if isinstance(offv, (tuple, list)) else (offv.a.reshape(-1)[0] if hasattr(offv, 'a') else offv)
+            offv = core.S.lift(offv)
+            ax = r['ran'].fields['_DiscretizedSpace__partition'].axes[0]
+            n, m, g0, h = r['n'], r['m'], r['g0'], r['h']
+            ctx.prove(st, 'stored offset is non-negative and at most |m - n|', s_and(core.sbool(offv >= 0), core.sbool(offv <= (m - n if grow else n - m))), info)
+            if r['off'] is not None:
+                ctx.prove(st, 'a given offset is stored unchanged', core.sc_eq(offv, r['off']), info)
+            sign = -1 if grow else 1
+            ctx.prove(st, 'stored offset == position of the range grid relative to the domain grid  (first range node == g0 %s offset * h)' % ('-' if grow else '+'),
+                      core.sc_eq(core.S.lift(ax.grid_min), g0 + sign * offv * h), info)
+            ctx.prove(st, 'range keeps the cell size', core.sc_eq(core.S.lift(ax.cell), h), info)
+        if n_ok == 0:
+            ctx.unsupported('unit', 'no path completes normally (vacuous)')
+    return Unit('resizing_init/bdry=%s%s/offset=%s/%s/h=%s' % (int(bl), int(br), off_kind, 'grow' if grow else 'shrink', hval), run, bounded_in='cell size h in {1/2, 3} (configuration)',
+                funcs=['odl.discr.discr_ops:ResizingOperator.__init__', 'odl.discr.discr_ops:_offset_from_spaces', 'odl.discr.discr_ops:_resize_discr'],
+                config={'nodes_on_bdry': [bl, br], 'offset': off_kind, 'grow': grow, 'h': hval})
 
 
 def units(tier, seed):
@@ -510,6 +635,8 @@ def units(tier, seed):
         for ok in ('none', 'given'):
             for grow in (True, False):
                 us.append(unit_resize_discr(bl, br, ok, grow))
+                for hv in (0.5, 3.0):
+                    us.append(unit_resizing_init(bl, br, ok, grow, hv))
     for mode in MODES:
         for kind in ('grow', 'shrink', 'same'):
             us.append(unit_forward_1d(mode, kind))
@@ -530,6 +657,48 @@ def units(tier, seed):
     return us
 
 
+def replay_discr(ob):
+    """native: ResizingOperator(domain, ran_shp=, offset=, discr_kwargs={'nodes_on_bdry': ..}) on small 1-d spaces: unchanged cell size, and every value
+    that is kept sits at the grid point where it was sampled"""
+    import os
+    import sys
+    root = os.environ.get('PYVC_REPO', '/repo')
+    if root not in sys.path:
+        sys.path.insert(0, root)
+    import warnings
+    warnings.filterwarnings('ignore')
+    import numpy as np
+    import odl
+    cfg = ob.get('config') or {}
+    bl, br = cfg.get('nodes_on_bdry', [False, False])
+    grow, given = cfg.get('grow'), cfg.get('offset') == 'given'
+    try:
+        for n in (4, 5, 6):
+            for m in ((n + 1, n + 3) if grow else (n - 1, n - 2)):
+                for off in ((range(0, abs(m - n) + 1)) if given else (None,)):
+                    X = odl.uniform_discr(0.5, 0.5 + n, n, nodes_on_bdry=(bl, br))
+                    op = odl.ResizingOperator(X, ran_shp=(m,), offset=None if off is None else (off,), discr_kwargs={'nodes_on_bdry': (bl, br)})
+                    if not np.allclose(op.range.cell_sides, X.cell_sides):
+                        return {'reproduced': True, 'detail': 'n=%d -> m=%d, offset %r, nodes_on_bdry %r: cell sides %r != %r' % (n, m, off, (bl, br), op.range.cell_sides, X.cell_sides)}
+                    x = X.element(np.arange(1.0, n + 1))
+                    y = op(x).asarray()
+                    gx, gy = X.grid.coord_vectors[0], op.range.grid.coord_vectors[0]
+                    for j, pt in enumerate(gy):
+                        k = np.where(np.isclose(gx, pt))[0]
+                        if len(k) and y[j] != 0 and not np.isclose(y[j], x[k[0]]):
+                            return {'reproduced': True, 'detail': 'n=%d -> m=%d, offset %r, nodes_on_bdry %r: value %r sampled at %r sits at range grid point %r (range %r)' % (
+                                n, m, off, (bl, br), y[j], gx[int(y[j]) - 1], pt, op.range.partition)}
+                    kept = set(y[y != 0])
+                    on_grid = set(x.asarray()[[i for i, p_ in enumerate(gx) if np.any(np.isclose(gy, p_))]])
+                    if not kept <= on_grid:
+                        return {'reproduced': True, 'detail': 'n=%d -> m=%d, offset %r, nodes_on_bdry %r: kept values %r are not the ones sampled inside the range %r' % (n, m, off, (bl, br), sorted(kept), op.range.partition)}
+    except Exception as e:
+        return {'reproduced': False, 'detail': 'native evaluation raised %s: %s' % (type(e).__name__, e)}
+    return {'reproduced': False, 'detail': 'range geometry consistent with the array operation natively'}
+
+
 def replay(ob):
+    if ob['unit'].startswith('resize_discr/') or ob['unit'].startswith('resizing_init/'):
+        return replay_discr(ob)
     from contracts import replay_resize
     return replay_resize.replay(ob)
